@@ -9,4 +9,4 @@ CONSTANTS
   MaxQuery = 2
   Fault = "none"
   MaxLen = 3
-INVARIANTS TypeOK LogExactlyOnce StatsTotals DeniedLeavesNoTrace EffectOfSettings ViewSound
+INVARIANTS TypeOK LogExactlyOnce StatsTotals DeniedLeavesNoTrace EffectOfSettings ViewSound AttributionsAgree
